@@ -24,7 +24,7 @@ MODULES = ["Arc.SqlAst.Props"]
 THEOREMS = [("Arc.SqlAst.Props", t) for t in [
     "C16_transform_is_subst", "C16_transform_is_subst_header", "C16_join_kind_preserved",
     "C16_comma_join_unrewritten", "C16_read_parquet_in_literal_unrewritten", "C16_header_cte_rewritten",
-    "C16_cte_scope_blind", "C16_lateral_newline_rewritten", "C16_skip_prefix_unrewritten",
+    "C16_cte_scope_blind", "C16_lateral_newline_rewritten", "C16_fast_path_misses_references", "C16_skip_prefix_unrewritten",
 ]]
 TIE_NAME = ("C16 correspondence (POST /api/v1/query via app.Test vs a plain DuckDB with views over the same Parquet files; "
             "executed text vs Arc.SqlAst.Model.gate)")
@@ -63,6 +63,8 @@ def signature(case, m, fl, o):
         return "read-parquet-text-disables-rewrite"
     if case["hdr"] and not fl["hdr_ctes_ok"]:
         return "header-cte-names-differ-from-permission-check"
+    if case["hdr"] and not fl["slow_path"]:
+        return "header-fast-path-misses-references"
     return "unclassified"
 
 
@@ -133,7 +135,7 @@ def run(res, tier, seed):
             continue
         mismatches.append(i)
         sig = signature(c, m, fl, o)
-        supported = m["src"] == "grammar" and fl["in_grammar"] and fl["hdr_ctes_ok"] and "read_parquet" not in c["sql"].lower()
+        supported = m["src"] == "grammar" and fl["in_grammar"] and fl["hdr_ctes_ok"] and fl["slow_path"] and "read_parquet" not in c["sql"].lower()
         if sig in known and not supported:
             reproduced.setdefault(sig, i)
         else:
